@@ -111,6 +111,9 @@ NOTES = {
               "facade) => reported as a broken obligation, no-failing-input-found: the harness has no route through the real New + driver wiring over a scripted L1 (recorded as a limit in DESIGN I.6)"),
     "C15_7": ("only no-failing-input-found at first run (obligation: the translated tick no longer equals the model; 1 mismatch): no schedule put a root on L2 between a failed injection and its retry",
               "harness/c15: one boundary schedule (an injection fails; before the next tick the root is on L2 after all; then a failure that left nothing behind and its retry)"),
+    "C08_7": ("MISSED by C08 at first run (reported by C11, which mirrors the rollup exit tree): C08's harness served proofs of the bridge exit tree only",
+              "props/c08 + props/l1info_common.run_c08_part: the C08 check also serves and re-verifies every proof of the L1 info tree and of the rollup exit tree "
+              "(the updatable tree) through the real l1infotreesync processor on the L1 histories of the C11 check"),
     "C05_8": ("only no-failing-input-found at first run (754 correspondence mismatches: an extra empty block per removed log): the scripted node gave removed logs the canonical block hash",
               "harness/c05: every second removed log carries the hash of the block it was removed from (an orphan hash), as a real node reports it; "
               "the unchanged downloader drops removed logs before it looks at them, so nothing else moves"),
@@ -196,7 +199,10 @@ def main():
             },
             "detection": {"check": by, "first_run": first, "strengthening": strengthening,
                           "recorded_runs_of_tools_seedtest": det,
-                          "now": "tools/seedtest.sh /verif/seeded/%s %s => VIOLATION property=%s with a concrete failing input (replay)" % (name, by, by)},
+                          "now": ("tools/seedtest.sh /verif/seeded/%s %s => VIOLATION property=%s with a concrete failing input (replay)" % (name, by, by))
+                          if det.get(by) == "concrete failing input" or not det else
+                          ("tools/seedtest.sh /verif/seeded/%s %s => VIOLATION property=%s ... no-failing-input-found (a proof obligation / the correspondence "
+                           "no longer checks; no concrete failing input is produced)" % (name, by, by))},
         }
         json.dump(meta, open(os.path.join(d, "meta.json"), "w"), indent=1)
         print("wrote", name, det)
